@@ -574,7 +574,7 @@ func TestC17_CloseRace(t *testing.T) {
 		"passed the closed check is parked before store.set until Close has finished; oracle: every created session gets exactly one close callback, nothing is admitted after Close returned; "+
 		"non-trivial = a handshake was parked across Close")
 	rapidGuard(t, "C17", c17CheckClose)
-	runRapid(t, c17CheckClose, tierN(300, 10000), func(t *rapid.T) {
+	runRapid(t, c17CheckClose, tierN(1200, 20000), func(t *rapid.T) {
 		c := c17CloseCase{Handshakers: rapid.IntRange(1, 8).Draw(t, "g"), PerG: rapid.IntRange(1, 6).Draw(t, "per"), Yield: rapid.Bool().Draw(t, "yield")}
 		c.CloseAfter = rapid.IntRange(1, c.Handshakers*c.PerG).Draw(t, "closeAfter")
 		f, raced := evalC17Close(c)
